@@ -246,8 +246,10 @@ def cseg_layout(repo, col):
 # ---------------------------------------------------------------------
 # sharded v1
 # ---------------------------------------------------------------------
-def sharded_layout(repo, col):
+def sharded_layout(repo, col, parts=("index", "name")):
     rule = "E-SPEC.sharded"
+    if "index" not in parts:
+        return _shard_file_name(repo, col, rule)
     close = repo.func("sharded_file_accessor", "Shard.close")
     # shard index entries: "<Q" pairs, relative to the end of the index
     packs = [c for c in calls_in(close.node)
@@ -348,6 +350,11 @@ def sharded_layout(repo, col):
                     "index length is not checked to be a multiple of 3")):
         col.add(rule + ".reader-rows", ini, p, p in itxt, "" if p in itxt
                 else why, undecided=p not in itxt)
+    if "name" in parts:
+        _shard_file_name(repo, col, rule)
+
+
+def _shard_file_name(repo, col, rule):
     # file name: lower-case hex, zero padded to ceil(shard_bits / 4)
     sc = repo.func("sharded_base", "ShardCMC.__init__")
     pad = [c for c in calls_in(sc.node) if isinstance(c.func, ast.Attribute)
@@ -646,6 +653,28 @@ def mesh_formats(repo, col):
         ok = p in rtxt
         col.add(rule + ".reader", r, p, ok, "" if ok else why,
                 undecided=not ok)
+    # every binary format literal on either side is little-endian '<I' / '<f'
+    for fn_ in (w, r):
+        for c in calls_in(fn_.node):
+            nm = call_name(c) or ""
+            lits = []
+            if nm.startswith("struct.") and c.args:
+                lits.append(c.args[0])
+            if nm.endswith("frombuffer") and len(c.args) > 1:
+                lits.append(c.args[1])
+            if nm.endswith("frombuffer") and kwarg(c, "dtype") is not None:
+                lits.append(kwarg(c, "dtype"))
+            if isinstance(c.func, ast.Attribute) and c.func.attr == "astype" \
+                    and c.args:
+                lits.append(c.args[0])
+            for lit in lits:
+                if isinstance(lit, ast.Constant) and isinstance(lit.value, str):
+                    okf = lit.value in ("<I", "<f", "<f4", "<u4")
+                    col.add(rule + ".format", fn_, "%s %r" % (nm or "astype",
+                                                               lit.value), okf,
+                            "" if okf else "binary format %r: the mesh format "
+                            "stores little-endian uint32 / float32"
+                            % lit.value, node=c)
     orders = [k.value.value for c in calls_in(r.node) for k in c.keywords
               if k.arg == "order" and isinstance(k.value, ast.Constant)]
     col.add(rule + ".reader", r, "reshape order %s" % orders,
